@@ -27,6 +27,9 @@
  */
 #include "stderroutput.h"
 
+#ifndef _POSIX_C_SOURCE
+#define _POSIX_C_SOURCE 200809L // for flockfile()
+#endif
 #include <stdio.h>
 
 
@@ -46,5 +49,16 @@
  */
 int snoopy_output_stderroutput (char const * const logMessage, __attribute__((unused)) char const * const arg)
 {
-    return fprintf(stderr, "%s\n", logMessage);
+    int charCount;
+
+    /*
+     * stderr is unbuffered: fprintf() hands a long record to the stream in pieces of
+     * 8 KiB and takes the stream lock for each piece only. Hold the lock across the
+     * whole record, or records of other threads end up between the pieces.
+     */
+    flockfile(stderr);
+    charCount = fprintf(stderr, "%s\n", logMessage);
+    funlockfile(stderr);
+
+    return charCount;
 }
